@@ -75,6 +75,8 @@ class Seq(object):
   def drop(self, n):
     if n <= 0:
       return self
+    if n == inf:
+      return Seq()
     if n <= len(self.pre):
       return Seq(self.pre[n:], self.per)
     if self.per is None:
@@ -91,6 +93,8 @@ class Seq(object):
                [v for v in self.per if p(v)] if self.per else None)
 
   def limit(self, n):
+    if n == inf:
+      return self
     return Seq(self.first(max(n, 0)))
 
   def append(self, other):
@@ -113,6 +117,8 @@ def count_take(n):
 
 def count_round(n):
   """skip/limit counts: nearest integer (exact .5 fractions not generated)."""
+  if isinstance(n, float) and math.isinf(n):
+    return n if n > 0 else 0        # +inf: everything; -inf: nothing
   if isinstance(n, float):
     return max(int(math.floor(n + 0.5)), 0)
   return max(n, 0)
@@ -397,6 +403,8 @@ def rand_count(rng, seq, for_take):
     n = float(max(n, 0)) + 0.5          # exact halves: take/peek only
   elif r < 0.45 and for_take:
     n = rng.choice([None, None, -inf_(), nan] + ([inf] if seq.finite else []))
+  elif r < 0.31 and not for_take:
+    n = rng.choice([inf, -inf_()])      # skip / limit: all or nothing
   return n
 
 
